@@ -11,6 +11,7 @@
 package main
 
 import (
+	"errors"
 	"fmt"
 	"strings"
 	"time"
@@ -19,6 +20,7 @@ import (
 	"github.com/thushan/olla/internal/adapter/proxy/olla"
 	"github.com/thushan/olla/internal/adapter/unifier"
 	"github.com/thushan/olla/internal/verif/h/lib/explore"
+	"github.com/thushan/olla/internal/verif/h/lib/hutil"
 	"github.com/thushan/olla/internal/verif/h/lib/report"
 	"github.com/thushan/olla/internal/verif/shim/vclock"
 	"github.com/thushan/olla/internal/verif/shim/vsched"
@@ -54,6 +56,17 @@ func (b unifierB) Ask() bool { return b.cb.Allow() }
 func (b unifierB) Fail()     { b.cb.RecordFailure() }
 func (b unifierB) Succ()     { b.cb.RecordSuccess() }
 
+// managerB drives the unifier breaker the way production does: through the EndpointManager that owns the
+// per-endpoint breakers (LifecycleUnifier.UnifyModels asks GetCircuitBreaker(url).Allow(), then reports the
+// outcome with RecordSuccess/RecordFailure).
+type managerB struct{ m *unifier.EndpointManager }
+
+const murl = "http://10.0.0.9:11434"
+
+func (b managerB) Ask() bool { return b.m.GetCircuitBreaker(murl).Allow() }
+func (b managerB) Fail()     { b.m.RecordFailure(murl, errors.New("unification failed")) }
+func (b managerB) Succ()     { b.m.RecordSuccess(murl) }
+
 type params struct {
 	Name   string
 	T      int           // failure threshold
@@ -74,6 +87,14 @@ func allParams() []params {
 	mkU := func(c unifier.CircuitBreakerConfig) func() brk {
 		return func() brk { return unifierB{unifier.NewCircuitBreaker(c)} }
 	}
+	mkM := func(c unifier.CircuitBreakerConfig) func() brk {
+		return func() brk {
+			cfg := unifier.DefaultConfig()
+			cfg.EnableBackgroundCleanup = false
+			cfg.CircuitBreaker = c
+			return managerB{unifier.NewEndpointManager(cfg, hutil.QuietLogger())}
+		}
+	}
 	return []params{
 		{Name: "health", T: health.DefaultCircuitBreakerThreshold, D: health.DefaultCircuitBreakerTimeout, Policy: "health", Assert: true,
 			mk: func() brk { return healthB{health.NewCircuitBreaker()} }, steps: []time.Duration{500 * time.Millisecond, 1500 * time.Millisecond, 31 * time.Second}},
@@ -85,6 +106,11 @@ func allParams() []params {
 			mk: mkU(ucfg(1, 1, time.Second, 1)), steps: []time.Duration{300 * time.Millisecond, 1100 * time.Millisecond}},
 		{Name: "unifier-2-2-1s-3", T: 2, D: time.Second, Policy: "unifier", H: 3, ST: 2, Assert: true,
 			mk: mkU(ucfg(2, 2, time.Second, 3)), steps: []time.Duration{300 * time.Millisecond, 1100 * time.Millisecond}},
+		// the same breaker reached through the EndpointManager (production caller)
+		{Name: "unifier-manager-default", T: def.FailureThreshold, D: def.OpenDuration, Policy: "unifier", H: def.HalfOpenRequests, ST: def.SuccessThreshold, Assert: true,
+			mk: mkM(def), steps: []time.Duration{time.Second, 61 * time.Second}},
+		{Name: "unifier-manager-2-2-1s-3", T: 2, D: time.Second, Policy: "unifier", H: 3, ST: 2, Assert: true,
+			mk: mkM(ucfg(2, 2, time.Second, 3)), steps: []time.Duration{300 * time.Millisecond, 1100 * time.Millisecond}},
 		// success threshold above the half-open quota: olla never ships it; explored and reported only
 		{Name: "unifier-2-3-1s-2", T: 2, D: time.Second, Policy: "unifier", H: 2, ST: 3, Assert: false,
 			mk: mkU(ucfg(2, 3, time.Second, 2)), steps: []time.Duration{300 * time.Millisecond, 1100 * time.Millisecond}},
